@@ -7,6 +7,7 @@
 //! Exit codes: 0 property held on everything explored, 1 violation (a line
 //! `VIOLATION property=<id> replay=<path>` is printed), 2 harness error.
 
+mod alloc;
 mod c02;
 mod c10;
 mod c12;
@@ -19,6 +20,9 @@ mod rng;
 mod sched;
 mod stream;
 mod vocab;
+
+#[global_allocator]
+static GLOBAL: alloc::SimAlloc = alloc::SimAlloc;
 
 /// Expand `$body` with `$c` bound to the generic check for property `$id`.
 macro_rules! dispatch {
